@@ -1,12 +1,14 @@
 import LenaModel.DriverUtil
 import LenaModel.Model.C18
 import LenaModel.Model.C18Split
+import LenaModel.Model.C18Ctx
 /-! Model driver for C18.  One request per case (a history), one reply:
   {"nc":n, "hist":[op,…]}  ->  {"ops":[obs,…]}
   op  = {"op":"run","mode":"source"|"sequence"|"hoist"|"hoist_src"|"meta"|"bare_hoist"|"bare_meta",
          "src":{"vals":[ints],"raise":k|null}, "els":[el,…], "take":k|null, "fin":"close"|"leak"}
       | {"op":"drop","c":id,"rc":bool} | {"op":"finalize"}
   el  = {"k":"map","a":int,"raise":k|null} | {"k":"cache","c":id,"rc":bool}
+      | {"k":"setctx","key":k,"v":v} | {"k":"tcache","t":t,"key":k,"rc":bool}   (case fields "nb","V": see `nameId`)
   obs = run:  {"out":[ints],"end":…,"ev":[…],"snaps":[[final0,tmp0,final1,tmp1,…],…],"fs":[{"final":[ints]|null,"tmp":bool},…],
                "ref":{"vals":[ints],"exc":name|null}}      (ref = `pipeFlow` on the file system before the run)
         drop: {"r":"ok"|name,"fs":…}     finalize: {"fs":…}
@@ -30,6 +32,20 @@ def parseEl (j : Json) : Option ElSpec :=
     let rc ← bool? (getD j "rc")
     pure (.cache c rc)
   | _ => none
+
+/-- elements with templated cache names (`Model/C18Ctx.lean`): {"k":"setctx","key":k,"v":v}, {"k":"tcache","t":t,"key":k,"rc":b} -/
+def parseTEl (j : Json) : Option TEl :=
+  match str? (getD j "k") with
+  | some "setctx" => do
+    let k ← nat? (getD j "key")
+    let v ← nat? (getD j "v")
+    pure (.setctx k v)
+  | some "tcache" => do
+    let t ← nat? (getD j "t")
+    let k ← nat? (getD j "key")
+    let rc ← bool? (getD j "rc")
+    pure (.tcache t k rc)
+  | _ => (parseEl j).map .el
 
 def parseMode : String → Option Mode
   | "source" => some .source
@@ -69,12 +85,13 @@ def bitsJson (nc : Nat) (fs : FS) : Json :=
 def bigDemand (nc : Nat) (fs : FS) (s : SrcSpec) : Nat :=
   (List.range nc).foldl (fun n c => n + ((fs c).final.getD []).length) (s.vals.length + 1)
 
-def parseRun (nc : Nat) (fs : FS) (j : Json) : Option RunSpec := do
+def parseRun (nb V nc : Nat) (fs : FS) (j : Json) : Option RunSpec := do
   let mode ← (str? (getD j "mode")).bind parseMode
   let sj := getD j "src"
   let vals ← intList? (getD sj "vals")
   let r ← optNat (getD sj "raise")
-  let els ← (arr? (getD j "els")).bind (fun a => a.toList.mapM parseEl)
+  let tels ← (arr? (getD j "els")).bind (fun a => a.toList.mapM parseTEl)
+  let els := resolve nb V [] tels          -- `Cache._set_context` through `LenaSequence._set_context`
   let take ← optNat (getD j "take")
   let fin ← str? (getD j "fin")
   let s : SrcSpec := ⟨vals, r⟩
@@ -89,6 +106,7 @@ def runObs (nc : Nat) (w : World) (r : RunSpec) : World × Json :=
     ("ev", ofList evJson d.evs),
     ("snaps", ofList (fun o => bitsJson nc o.2) d.outs),
     ("fs", fsJson nc w'.fs),
+    ("ids", ofList ofNat (cacheIds r.els)),
     ("ref", Json.mkObj [("vals", ofIntList ref.vals), ("exc", ofOpt (fun e => Json.str (excName e)) ref.exc)])])
 
 def parseSplitRun (nc : Nat) (fs : FS) (j : Json) : Option SplitRunSpec := do
@@ -113,35 +131,41 @@ def splitObs (patched : Bool) (nc : Nat) (w : World) (r : SplitRunSpec) : World 
     ("snaps", ofList (fun o => bitsJson nc o.2) d.outs),
     ("fs", fsJson nc w'.fs)])
 
-def stepObs (patched : Bool) (nc : Nat) (w : World) (j : Json) : Option (World × Json) :=
+def stepObs (patched : Bool) (nb V nc : Nat) (w : World) (j : Json) : Option (World × Json) :=
   match str? (getD j "op") with
   | some "splitrun" => do
     let r ← parseSplitRun nc w.fs j
     pure (splitObs patched nc w r)
   | some "run" => do
-    let r ← parseRun nc w.fs j
+    let r ← parseRun nb V nc w.fs j
     pure (runObs nc w r)
   | some "drop" => do
     let c ← nat? (getD j "c")
     let rc := (bool? (getD j "rc")).getD false
     let (w', e) := dropOp w c rc
     pure (w', Json.mkObj [("r", Json.str (match e with | none => "ok" | some e => excName e)), ("fs", fsJson nc w'.fs)])
+  | some "repr" => do
+    -- `Cache.__repr__` (cache.py:132-140) shows `cache_exists()`
+    let c ← nat? (getD j "c")
+    let rc := (bool? (getD j "rc")).getD false
+    pure (w, Json.mkObj [("exists", Json.bool (cacheExists w.fs c rc)), ("fs", fsJson nc w.fs)])
   | some "finalize" =>
     let w' := step w .finalize
     some (w', Json.mkObj [("fs", fsJson nc w'.fs)])
   | _ => none
 
-def runHist (patched : Bool) (nc : Nat) : World → List Json → Option (List Json)
+def runHist (patched : Bool) (nb V nc : Nat) : World → List Json → Option (List Json)
   | _, [] => some []
   | w, j :: js => do
-    let (w', o) ← stepObs patched nc w j
-    let rest ← runHist patched nc w' js
+    let (w', o) ← stepObs patched nb V nc w j
+    let rest ← runHist patched nb V nc w' js
     pure (o :: rest)
 
 def handle (j : Json) : Json :=
   match nat? (getD j "nc"), arr? (getD j "hist") with
   | some nc, some h =>
-    match runHist ((bool? (getD j "split_patched")).getD false) nc World.init h.toList with
+    match runHist ((bool? (getD j "split_patched")).getD false) ((nat? (getD j "nb")).getD nc) ((nat? (getD j "V")).getD 0)
+        nc World.init h.toList with
     | some obs => Json.mkObj [("ops", Json.arr obs.toArray)]
     | none => err "bad op"
   | _, _ => err "bad case"
